@@ -53,18 +53,11 @@ func ndAssert(c value, msg string) {
 		X.z.send("(push)")
 		X.z.send("(assert (not " + c.t + "))")
 		r := X.z.check()
+		X.z.send("(pop)")
 		var m []SymVar
 		if r == "sat" {
-			for _, v := range X.vars {
-				cv := *v
-				cv.Value = X.z.getValue(v.term)
-				m = append(m, cv)
-			}
-			if m == nil {
-				m = []SymVar{}
-			}
+			m = X.model("(not " + c.t + ")")
 		}
-		X.z.send("(pop)")
 		switch r {
 		case "sat":
 			X.res.Violations = append(X.res.Violations, Violation{Kind: "assert", Msg: msg, Model: m, Trail: X.trailString()})
